@@ -20,7 +20,9 @@ OPTSETS = [['-S', '-o', 'OUT'], ['-E', '-o', 'OUT'], ['-c', '-o', 'OUT'], ['-S',
 # the *compiler's own* source: conversions of NaN / infinity / out-of-range values, two faults in one expression, huge shifts
 CORNER_OPERANDS = ['0.0/0.0', '-(0.0/0.0)', '1e400', '-1e400', '1e400L', '1/0', '2/0', '5%0', '18446744073709551615.0', '18446744073709551616.0', '-1.0', '-0.5',
                    '9223372036854775807', '(-9223372036854775807-1)', '9223372036854775808.0', '-9223372036854775809.0', '4294967296.0', '1e19', '1e19f', '3', '0', '1.5f', 'y',
-                   '0x1p63', '0x1p64L', '-0x1p63', '1e-400', '4.9e-324', '(1e308*10)', '(0.0/0.0 != 0.0/0.0)']
+                   '0x1p63', '0x1p64L', '-0x1p63', '1e-400', '4.9e-324', '(1e308*10)', '(0.0/0.0 != 0.0/0.0)',
+                   # ordinary values: the compiler's own long double arithmetic folds these (operand order, rounding)
+                   '3.0L', '10.0L', '0.1L', '7', '2.5', '1.0L', '1e10L', '3.0f', '0.3']
 CORNER_CASTS = ['(unsigned long)', '(long)', '(int)', '(unsigned)', '(unsigned char)', '(_Bool)', '(float)', '(double)', '(long double)', '(short)', '', '', '-', '!', '~(long)']
 CORNER_BIN = ['*', '+', '-', '/', '%', '<<', '>>', '<', '==', '&', '|', '&&', '||', ',']
 
